@@ -10,12 +10,25 @@ package commitgraph
 // generation number in the top 30 bits of the 64-bit word and a 34-bit date:
 // the word written must carry the commit's generation in bits 34..63 whatever
 // the committer time is (property C51: generation numbers read back equal).
+// The parent words are positions in the file being written: each is the
+// hashToIndex entry of the parent's id (never a position taken from the source
+// index, whose numbering is another one), 0x70000000 for "no parent"; an
+// octopus merge's second word points, with the top bit set, at the first of
+// len(parents)-1 EDGE words, each the hashToIndex entry of its parent.
 //gvc:func (*Encoder).encodeCommitData
 //gvc:  props C51
 //gvc:  theory bv
 //gvc:  opt coarse
 //gvc:  opt frame args
 //gvc:  sink WriteUint64 requires generation: commitData.Generation <= 0x3fffffff ==> unixTime >> 34 == commitData.Generation
+//gvc:  sink WriteUint32#1 requires first: len(commitData.ParentHashes) >= 1 ==> parent1 == hashToIndex[commitData.ParentHashes[0]]
+//gvc:  sink WriteUint32#1 requires none: len(commitData.ParentHashes) == 0 ==> parent1 == 0x70000000
+//gvc:  sink WriteUint32#2 requires second: len(commitData.ParentHashes) == 2 ==> parent2 == hashToIndex[commitData.ParentHashes[1]]
+//gvc:  sink WriteUint32#2 requires single: len(commitData.ParentHashes) < 2 ==> parent2 == 0x70000000
+//gvc:  loop 2 let n0 = len(extraEdges)
+//gvc:  loop 2 invariant edges: len(extraEdges) == n0 + it2
+//gvc:  loop 2 step stored: extraEdges[len(extraEdges) - 1] == hashToIndex[commitData.ParentHashes[it2]]
+//gvc:  sink WriteUint32#2 requires octopus: len(commitData.ParentHashes) > 2 && len(extraEdges) < 0x80000000 ==> parent2 & 0x80000000 != 0 && (parent2 & 0x7fffffff) + (len(commitData.ParentHashes) - 1) == len(extraEdges)
 //gvc:end
 
 // GetCommitDataByIndex against the commit-graph file format (git
